@@ -314,35 +314,101 @@ theorem nlookup_append' {β} (k : Nat) (l r : List (Nat × β)) :
     · simp [nlookup, h]
     · simp [nlookup, h, ih]
 
-/-- every entry of the retransmission map is the cursor of a window entry of that filter index -/
-theorem retransmissionMap_mem (k : Nat) (c : Cursor) : ∀ (l : List (Nat × Nat × Option Cursor)) (acc : List (Nat × Cursor)),
-    nlookup k (retransmissionMap l acc) = some c →
-    nlookup k acc = some c ∨ ∃ e ∈ l, e.2.1 = k ∧ e.2.2 = some c
-  | [], acc, h => by simp only [retransmissionMap] at h; exact .inl h
-  | (pk, fi, some c') :: rest, acc, h => by
-    simp only [retransmissionMap] at h
-    split at h
-    · rcases retransmissionMap_mem k c rest acc h with h1 | ⟨e, he, h1, h2⟩
-      · exact .inl h1
-      · exact .inr ⟨e, by simp [he], h1, h2⟩
-    · rename_i hnone
-      rcases retransmissionMap_mem k c rest _ h with h1 | ⟨e, he, h1, h2⟩
-      · rw [nlookup_append'] at h1
-        cases ha : nlookup k acc with
-        | some v => rw [ha] at h1; exact .inl (by simpa using h1)
+/-! `retransmission_map` keeps the LEAST cursor per filter index -/
+
+theorem cursorMin_cases (a b : Cursor) : cursorMin a b = a ∨ cursorMin a b = b := by
+  unfold cursorMin; split
+  · exact .inl rfl
+  · exact .inr rfl
+
+/-- the least of two optional cursors (`none` = no cursor yet) -/
+def optMin : Option Cursor → Option Cursor → Option Cursor
+  | some a, some b => some (cursorMin a b)
+  | some a, none => some a
+  | none, b => b
+
+/-- the least cursor among `init` and the window entries of filter index `k` that carry one -/
+def leastFrom (k : Nat) : List (Nat × Nat × Option Cursor) → Option Cursor → Option Cursor
+  | [], init => init
+  | (_, fi, cur) :: rest, init => leastFrom k rest (if fi = k then optMin init cur else init)
+
+theorem nlookup_map_set {β} (k fi : Nat) (v : β) : ∀ (l : List (Nat × β)),
+    nlookup k (l.map (fun p => if p.1 = fi then (fi, v) else p)) =
+      if k = fi then (nlookup k l).map (fun _ => v) else nlookup k l
+  | [] => by simp [nlookup]
+  | (a, b) :: r => by
+    simp only [List.map_cons, nlookup]
+    have ih := nlookup_map_set k fi v r
+    by_cases h1 : a = fi
+    · subst h1
+      by_cases h2 : a = k
+      · subst h2; simp [nlookup]
+      · have h3 : ¬ k = a := fun e => h2 e.symm
+        simp only [if_true, nlookup, h2, if_false, h3] at ih ⊢
+        exact ih
+    · by_cases h2 : a = k
+      · subst h2
+        have h3 : ¬ a = fi := h1
+        simp [h1, nlookup, h3]
+      · simp only [h1, if_false, nlookup, h2]
+        exact ih
+
+/-- what `retransmission_map` computes, read at one filter index -/
+theorem retx_leastFrom (k : Nat) : ∀ (l : List (Nat × Nat × Option Cursor)) (acc : List (Nat × Cursor)),
+    nlookup k (retransmissionMap l acc) = leastFrom k l (nlookup k acc)
+  | [], acc => rfl
+  | (_, fi, some c) :: rest, acc => by
+    simp only [retransmissionMap, leastFrom]
+    split
+    · rename_i least hl
+      rw [retx_leastFrom k rest, nlookup_map_set]
+      by_cases hk : fi = k
+      · subst hk; simp [hl, optMin]
+      · have : ¬ k = fi := fun e => hk e.symm
+        simp [hk, this]
+    · rename_i hn
+      rw [retx_leastFrom k rest, nlookup_append']
+      by_cases hk : fi = k
+      · subst hk; simp [hn, optMin, nlookup]
+      · simp only [hk, if_false, nlookup]
+        cases nlookup k acc <;> rfl
+  | (_, fi, none) :: rest, acc => by
+    simp only [retransmissionMap, leastFrom]
+    rw [retx_leastFrom k rest]
+    by_cases hk : fi = k
+    · simp only [hk, if_true]
+      cases nlookup k acc <;> rfl
+    · simp [hk]
+
+theorem leastFrom_mem (k : Nat) (c : Cursor) : ∀ (l : List (Nat × Nat × Option Cursor)) (init : Option Cursor),
+    leastFrom k l init = some c → init = some c ∨ ∃ e ∈ l, e.2.1 = k ∧ e.2.2 = some c
+  | [], init, h => .inl h
+  | (pk, fi, cur) :: rest, init, h => by
+    simp only [leastFrom] at h
+    rcases leastFrom_mem k c rest _ h with h1 | ⟨e, he, h1, h2⟩
+    · by_cases hk : fi = k
+      · simp only [hk, if_true] at h1
+        cases init with
         | none =>
-          rw [ha] at h1
-          simp only [Option.none_or, nlookup] at h1
-          split at h1
-          · rename_i e; simp only [Option.some.injEq] at h1; subst h1
-            exact .inr ⟨(pk, fi, some c'), by simp, e, rfl⟩
-          · cases h1
-      · exact .inr ⟨e, by simp [he], h1, h2⟩
-  | (pk, fi, none) :: rest, acc, h => by
-    simp only [retransmissionMap] at h
-    rcases retransmissionMap_mem k c rest acc h with h1 | ⟨e, he, h1, h2⟩
-    · exact .inl h1
+          simp only [optMin] at h1
+          exact .inr ⟨(pk, fi, cur), by simp, hk, h1⟩
+        | some i =>
+          cases cur with
+          | none => exact .inl h1
+          | some c' =>
+            simp only [optMin, Option.some.injEq] at h1
+            rcases cursorMin_cases i c' with e | e
+            · exact .inl (by rw [← h1, e])
+            · exact .inr ⟨(pk, fi, some c'), by simp, hk, by rw [← h1, e]⟩
+      · simp only [hk, if_false] at h1; exact .inl h1
     · exact .inr ⟨e, by simp [he], h1, h2⟩
+
+/-- every entry of the retransmission map is the cursor of a window entry of that filter index -/
+theorem retransmissionMap_mem (k : Nat) (c : Cursor) (l : List (Nat × Nat × Option Cursor)) (acc : List (Nat × Cursor))
+    (h : nlookup k (retransmissionMap l acc) = some c) :
+    nlookup k acc = some c ∨ ∃ e ∈ l, e.2.1 = k ∧ e.2.2 = some c := by
+  rw [retx_leastFrom] at h
+  exact leastFrom_mem k c l _ h
 
 theorem removeFromGroups_mem {sh : List (String × SharedGroup)} {cid : String} {p : String × SharedGroup}
     (h : p ∈ removeFromGroups sh cid) : ∃ q ∈ sh, q.1 = p.1 ∧ q.2.cursor = p.2.cursor := by
